@@ -39,6 +39,9 @@ func runCold(lang int64, seed int64, round int64) {
 		}
 		out[i].sent = sentence(indicesOf(r.bytes(sizes[r.intn(5)])), int(out[i].lang), " ")
 		out[i].ent = r.bytes(sizes[r.intn(5)])
+		if i%6 == 5 { // some of the encoding callers pass a value that names no language (a request with a bad id)
+			out[i].lang = []int64{100, -1, 10}[(i/6)%3]
+		}
 	}
 	emit(Event{"op": "Cut", "source": "os", "cold": true, "cold_lang": lang, "cold_seed": seed, "cold_round": round})
 	step := time.Duration(100+r.intn(4000)) * time.Nanosecond
@@ -69,9 +72,60 @@ func runCold(lang int64, seed int64, round int64) {
 			})
 		}(i)
 	}
+	// every third process: meanwhile a crowd of other callers keeps encoding under a value that names no language
+	// (cheap calls, no first use of their own) - the first uses above happen in the middle of heavy read traffic
+	var stormStop int32
+	var stormWG sync.WaitGroup
+	stormSeen := make([]map[string]int, 0)
+	var stormEnt []byte
+	if round%3 == 1 {
+		stormEnt = r.bytes(16)
+		for k := 0; k < 48; k++ {
+			m := map[string]int{}
+			stormSeen = append(stormSeen, m)
+			stormWG.Add(1)
+			go func(m map[string]int) {
+				defer stormWG.Done()
+				defer func() { recover() }()
+				for atomic.LoadInt32(&stormStop) == 0 {
+					s, err := bip39.NewMnemonicByEntropy(stormEnt, bip39.Language(100))
+					if err != nil {
+						s += "/" + err.Error()
+					}
+					m[s]++
+				}
+			}(m)
+		}
+	}
 	time.Sleep(2 * time.Millisecond) // let every caller reach the start line
 	atomic.StoreInt32(&start, 1)
 	wg.Wait()
+	if round%3 == 1 {
+		// first uses of the remaining languages, one after another, still inside the traffic
+		for l := int64(0); l < 10; l++ {
+			recCheck(sentence(indicesOf(r.bytes(16)), int(l), " "), l, Event{"gen": true, "conc": true, "cls": "cold-storm", "g": int(l)})
+		}
+		atomic.StoreInt32(&stormStop, 1)
+		done := make(chan struct{})
+		go func() { stormWG.Wait(); close(done) }()
+		select {
+		case <-done:
+			tot := map[string]int{}
+			for _, m := range stormSeen {
+				for k, v := range m {
+					tot[k] += v
+				}
+			}
+			for k, v := range tot { // one event per distinct observation
+				emit(Event{"op": "ByEntropy", "ent": ints(stormEnt), "ent_len": 16, "ent_nil": false, "lang": langField(100), "out": units(k),
+					"err": errRec(nil), "ent_same": true, "conc": true, "cls": "cold-storm", "count": v, "panicked": false, "timeout": false})
+			}
+		case <-time.After(watchdog):
+			emit(Event{"op": "ByEntropy", "ent": ints(stormEnt), "ent_len": 16, "ent_nil": false, "lang": langField(100), "out": []int{},
+				"err": errRec(nil), "ent_same": true, "conc": true, "cls": "cold-storm", "panicked": false, "timeout": true,
+				"panic": units("encoding callers did not come back")})
+		}
+	}
 	for i := 0; i < G; i++ {
 		lang := out[i].lang
 		if !out[i].o.panicked && !out[i].o.timeout {
